@@ -1249,6 +1249,90 @@ pub fn run_fanout(focus: &'static str, seed: u64, index: u64) -> CaseOut {
     CaseOut { findings, counts, signature: fnv_step(sig, per_thread), nontrivial, sample: case }
 }
 
+// ------------------------------------------------------------------------------------------------ slow sweeper ticks (whole seconds of real time)
+
+/// The sweeper ticks every 2 or 3 s of REAL time (the default is 5 s), so anything it derives from the length of its tick becomes visible,
+/// which millisecond ticks hide. The clock stands at x.7 s. Key B's deadline (x.2 s) has passed, key A's deadline (x+1.3 s) lies in the NEXT
+/// second, key C's two seconds further. After one real tick: B is swept, A and C are still readable (the clock has not moved). Then the
+/// clock passes A's deadline; after another tick A is swept and released, C is still there. One case costs two ticks of wall-clock time.
+pub fn run_slow_tick(focus: &'static str, seed: u64, index: u64) -> CaseOut {
+    let mut rng = rt::rng_for(seed, index, 0x5107);
+    let tick_s = 2 + index % 2;
+    let shards = *rng.pick(&[2usize, 4, 256]);
+    let sutcfg = SutCfg { counters: 100, capacity: 16, max_weight: 100_000, shards, cmd_buf: 8, pool: 1, buf: 2, tick: Duration::from_secs(tick_s),
+        weight_mode: WeightMode::Custom, hash_mode: HashMode::Default, start_ns: rt::START_NS };
+    let case = J::obj().with("engine", J::s("conc")).with("scenario", J::s("slow-tick")).with("focus", J::s(focus)).with("seed", J::Int(seed as i128)).with("index", J::Int(index as i128))
+        .with("tick_seconds", J::Int(tick_s as i128)).with("ttl_shards", J::u(shards));
+    let mut counts = Counts::default();
+    let mut findings = Vec::new();
+    rt::clear_abort();
+    let r = recorder();
+    r.keep.store(false, Ordering::SeqCst);
+    let _ = r.take_events();
+    sched().release_all();
+    sched().quiet();
+    let sut = Sut::new(sutcfg);
+    let marks = sut.marks;
+    let mut client = Client::new(1);
+    let (va, vb, vc) = (client.token(1), client.token(2), client.token(3));
+    // the start time is a whole second
+    client.write(&sut.cache, WriteOp::PutWTtl { key: 2, value: vb, weight: 30, ttl: Duration::from_millis(200) });
+    client.settle_all(&marks);
+    sut.advance(700_000_000);
+    client.write(&sut.cache, WriteOp::PutWTtl { key: 1, value: va, weight: 30, ttl: Duration::from_millis(600) });
+    client.write(&sut.cache, WriteOp::PutWTtl { key: 3, value: vc, weight: 30, ttl: Duration::from_millis(2_600 + 1000 * (index % 2)) });
+    client.settle_all(&marks);
+    let wait_sweeps = |n: u64| -> bool {
+        let target = recorder().sweeps() + n;
+        let started = Instant::now();
+        // real time: the sweeper sleeps for its tick; this is a bounded wait for an event, not a verdict
+        while recorder().sweeps() < target { if started.elapsed() > Duration::from_secs(tick_s * (n + 2) + 5) { return false; } thread::sleep(Duration::from_millis(20)); }
+        true
+    };
+    let mut conclusive = wait_sweeps(1);
+    let witness = |text: &str| case.clone().with("at", J::s(text));
+    if conclusive {
+        counts.inc("slow_ticks_observed");
+        if sut.cache.get(&1) != Some(va) {
+            fail(&mut findings, &["C09", "C10", "C03"], "C09/key-hidden-before-its-deadline/slow-tick".into(),
+                 format!("key 1 expires 600 ms from now (in the next whole second); after one sweeper tick of {} s with the clock standing still it reads {:?}", tick_s, sut.cache.get(&1)), witness("after the first tick"));
+        }
+        if sut.cache.get(&3) != Some(vc) {
+            fail(&mut findings, &["C09", "C10", "C03"], "C09/key-hidden-before-its-deadline/slow-tick".into(),
+                 format!("key 3 expires more than two seconds from now; after one sweeper tick of {} s with the clock standing still it reads {:?}", tick_s, sut.cache.get(&3)), witness("after the first tick"));
+        }
+        let snapshot = sut.snapshot();
+        if snapshot.stored.iter().any(|e| e.0 == 2) {
+            // B's second is the second the clock stands in: this tick must have visited its shard
+            fail(&mut findings, &["C10"], "C10/expired-key-not-swept-by-the-tick-of-its-own-second/slow-tick".into(), "key 2 expired 500 ms ago in the second the clock stands in, the sweeper ticked, and it is still stored".into(), witness("after the first tick"));
+        }
+        if findings.is_empty() && snapshot.weight_used != 60 {
+            fail(&mut findings, &["C10", "C05"], "C10/weight-after-slow-tick".into(), format!("two keys of weight 30 are held, the total is {}", snapshot.weight_used), witness("after the first tick"));
+        }
+        // cross A's deadline (x+1.3 s): the clock now stands at x+1.4 s, in A's second
+        sut.advance(700_000_000);
+        if sut.cache.get(&1).is_some() { fail(&mut findings, &["C09"], "C09/expired-value-served/slow-tick".into(), "key 1 is 100 ms past its deadline and still readable".into(), witness("after the second advance")); }
+        conclusive = wait_sweeps(1);
+        if conclusive {
+            counts.inc("slow_ticks_observed");
+            let snapshot = sut.snapshot();
+            if snapshot.stored.iter().any(|e| e.0 == 1) || snapshot.weight_used != 30 {
+                fail(&mut findings, &["C10"], "C10/expired-key-not-swept-by-the-tick-of-its-own-second/slow-tick".into(), format!("key 1 expired in the second the clock stands in and the sweeper ticked; stored: {}, total {}", snapshot.stored.iter().any(|e| e.0 == 1), snapshot.weight_used), witness("after the second tick"));
+            }
+            if sut.cache.get(&3) != Some(vc) {
+                fail(&mut findings, &["C09", "C10", "C03"], "C09/key-hidden-before-its-deadline/slow-tick".into(), format!("key 3 is still more than a second before its deadline and reads {:?}", sut.cache.get(&3)), witness("after the second tick"));
+            }
+            counts.inc("slow_tick_cases_completed");
+        }
+    }
+    if !conclusive { findings.push(Finding { props: vec![focus], signature: "inconclusive/slow-tick".into(), detail: "the sweeper did not tick within the allotted real time".into(), witness: J::Null, inconclusive: true }); }
+    // (shutdown does not wake the sweeper: it notices at its next tick, which finish() waits for)
+    let nontrivial = counts.get("slow_tick_cases_completed") > 0;
+    if let Err(waited) = sut.finish_or_leak() { if findings.is_empty() { findings.push(Finding { props: vec![focus], signature: "inconclusive/finish".into(), detail: waited_name(&waited), witness: J::Null, inconclusive: true }); } }
+    counts.inc("cases");
+    CaseOut { findings, counts, signature: fnv_step(0x5107, tick_s * 1000 + shards as u64), nontrivial, sample: case }
+}
+
 // ------------------------------------------------------------------------------------------------ bare workload (sanitizers, Miri)
 
 /// The same kind of mixed concurrent workload, but with NO harness hooks installed and no shared harness state
